@@ -3,6 +3,12 @@
 import json
 PROPS = [json.loads(l) for l in open('/verif/properties.jsonl')]
 CLAIMED = {
+ "C11": dict(
+    category="proof",
+    text="Coq theorems (C11_tuple_slice, C11_tuple_int, C11_ellipsis_expanded, C11_common_axis, C11_explode_entries, C11_explode_count, C11_explode_common_axis, C11_cube_like_shape) prove for any number of cubes, any shapes (ragged along the common axis) and any item that sequence indexing is list indexing composed with per-cube slicing, that the new common axis is the rank of the old one among surviving axes (Ellipsis expanded first), and that exploding returns hyperplane j of cube k at position locate(lengths, m); the transcription is tied to /repo by a correspondence check over histories of <=3 ops and a numpy/list direct oracle.",
+    design_ref="DESIGN.md §5.11",
+    note="Trusted: Coq kernel + VM; Model/M_Sequence.v transcription (uses M_Slicing for per-cube slicing); PyIndex.v model of CPython list slicing (validated each run); harness + numpy oracle. Per-cube world coordinates are C01's subject. 0-d cubes (all axes integer-indexed) do not exist in ndcube and are excluded.",
+    technique="Coq proof over hand-written Gallina model + vm_compute correspondence check against the implementation"),
  "C01": dict(
     category="proof",
     text="Coq theorems (C01_none_rejected, C01_data_is_numpy, C01_lockstep, C01_elementwise, C01_rank_shape) prove for every shape, every item (ints, open/negative/over-long slices, Ellipsis, None) and every inner WCS that the sliced WCS's per-axis offset and dropped flag equal numpy's start and dropped flag, so every surviving element reports the world coordinates of its source element; the transcription of NDCubeSlicingMixin.__getitem__ is tied to /repo by a correspondence check (probe linear WCS exact: shape, first element, WCS offsets, rank, array_shape) and an element-wise direct oracle over FITS families (TAN pair, split pair, rotated PC), numpy/dask payloads, mask/uncertainty/unit.",
